@@ -9,7 +9,7 @@ from .. import poly, quat, solve, sym
 from ..sarr import SArr, patched, sarr
 from ..sym import R, real
 from . import kernel
-from .common import all_eq, eq, np_installed, pydrex_modules, sample, only_path
+from .common import all_eq, eq, main_path, np_installed, pydrex_modules, sample, only_path
 
 TIMEOUT_MS = {"quick": 60000, "thorough": 300000}
 
@@ -128,9 +128,9 @@ def t_spin_contract(sess):
 
     with np_installed(core):
         paths, info = sym.explore(fn)
-    if len(paths) != 1 or paths[0].exc is not None:
-        raise sym.HarnessError(f"unexpected paths {paths}")
-    p = only_path(sess, paths)
+    p = main_path(sess, paths, "spin contract")
+    if p is None:
+        return
     q, A, dA = p.value
     rules = poly.Rules().unit_quat(q)
     Z = sarr(np.zeros((3, 3)))
@@ -184,8 +184,11 @@ def t_aggregate(sess, regime, n_grains):
     damp = R(1) if regime == "matrix_dislocation" else R(0.3)
     calls = []
 
+    cells = {}
+
     def stub(phase, fabric, orientation, strain_rate, velocity_gradient, p, n, lam):
-        i = len(calls) % n_grains
+        # which grain: the one whose orientation cells were handed in (a tree that skips grains must not shift the labels)
+        i = cells.get(id(np.asarray(orientation, dtype=object).flat[0]), len(calls) % n_grains)
         calls.append((orientation, strain_rate, velocity_gradient, p, n, lam))
         return quat.symmat(f"dA{i}_"), real(f"E{i}")
 
@@ -195,6 +198,8 @@ def t_aggregate(sess, regime, n_grains):
         for i in range(n_grains):
             A[i] = quat.symmat(f"A{i}_").view(np.ndarray)
         A = A.view(SArr)
+        cells.clear()
+        cells.update({id(A[i].flat[0]): i for i in range(n_grains)})
         f = quat.symvec("f", n_grains)
         L = quat.symmat("L")
         D = (L + L.transpose()) / 2
@@ -210,18 +215,31 @@ def t_aggregate(sess, regime, n_grains):
         return dict(A=A, f=f, L=L, D=D, p=p, n=n, lam=lam, M=M, phi=phi, a=a, o1=o1, o2=o2, o3=o3, o4=o4, calls=list(calls))
 
     with np_installed(core), patched((core, "_get_rotation_and_strain", stub)):
-        paths, info = sym.explore(fn)
-    if len(paths) != 1 or paths[0].exc is not None:
-        raise sym.HarnessError(f"unexpected paths in derivatives: {paths}")
-    p = only_path(sess, paths)
+        paths, info = sym.explore(fn, catch=(Exception,), max_paths=48)
+    if info.get("truncated"):
+        sess.truncated = True
+    if not paths:
+        raise sym.HarnessError("no feasible path through derivatives")
+    # the pinned source has exactly one path here; a tree that branches on the volumes / energies (a shortcut for
+    # "consumed" grains, say) gets every claim proved on every one of its paths -- never a harness error
+    for k, p in enumerate(paths):
+        _aggregate_claims(sess, p, regime if len(paths) == 1 else f"{regime} [path {k}: {''.join('T' if d else 'F' for d in p.decisions)}]", regime, n_grains, damp)
+
+
+def _aggregate_claims(sess, p, tag, regime, n_grains, damp):
+    if p.exc is not None:
+        sess.prove(f"{tag}: derivatives raises {type(p.exc).__name__}: {str(p.exc)[:80]}", p.pc, z3.BoolVal(False))
+        return
     v = p.value
     f, M, phi, a = v["f"], v["M"], v["phi"], v["a"]
     dA, df = v["o1"]
     E = [real(f"E{i}") for i in range(n_grains)]
     simplex = [(x >= 0).z3() for x in f] + [eq(sum(f, R(0)), 1)]
     pc = p.pc
-    tag = regime
-    sess.satisfiable(f"{tag}: reach", pc + simplex + [(M > 0).z3(), (phi > 0).z3()])
+    if tag == regime:
+        sess.satisfiable(f"{tag}: reach", pc + simplex + [(M > 0).z3(), (phi > 0).z3()])
+    elif sess.path_infeasible(f"{tag}: path is infeasible", pc + simplex):
+        return
     sess.prove(f"{tag}: sum f = 1 => sum f' = 0", pc + [eq(sum(f, R(0)), 1)], eq(sum(df, R(0)), 0))
     for i in range(n_grains):
         sess.prove(f"{tag}: f_{i} = 0 => f'_{i} = 0", pc + [eq(f[i], 0)], eq(df[i], 0))
@@ -248,8 +266,7 @@ def t_aggregate(sess, regime, n_grains):
         ok.append(all_eq(c[2], v["L"]))
         ok += [eq(c[3], v["p"]), eq(c[4], v["n"]), eq(c[5], v["lam"])]
     sess.prove(f"{tag}: kernel called with grain i's own orientation and the shared D, L, p, n, lambda", pc, z3.And(*ok))
-    if len(v["calls"]) != 4 * n_grains:
-        raise sym.HarnessError("kernel call count")
+    sess.prove(f"{tag}: the kernel is evaluated once per grain and call", pc, z3.BoolVal(len(v["calls"]) == 4 * n_grains))
     sample(sess, obligation="zero net volume change", regime=regime, sum_df=str(sum(df, R(0)))[:300])
 
 
